@@ -369,12 +369,12 @@ impl Node {
                 // ever blocks, the step overran without a `Timeout`.
                 if ctx.timeout_armed.load(Ordering::SeqCst) && !ctx.timeout_seen.load(Ordering::SeqCst) {
                     let mut n = 0u32;
-                    while !ctx.timeout_seen.load(Ordering::SeqCst) && n < 20_000 {
+                    while !ctx.timeout_seen.load(Ordering::SeqCst) && n < 100_000 {
                         rt::yield_now();
                         n += 1;
                     }
                     if !ctx.timeout_seen.load(Ordering::SeqCst) {
-                        ctx.violation("c11_timeout_not_raised", format!("node {} kept a step busy for 20000 scheduling rounds with a step time-out configured, and no timed wait of the executor ever blocked: the overrunning step cannot yield Timeout", self.idx));
+                        ctx.violation("c11_timeout_not_raised", format!("node {} kept a step busy for 100000 scheduling rounds with a step time-out configured, and no timed wait of the executor ever blocked: the overrunning step cannot yield Timeout", self.idx));
                     }
                 }
             }
